@@ -338,6 +338,97 @@ fn run_config(report: &Report, pre: Pre, ops: &[Op], bound: usize, extra_filter:
     }
 }
 
+/// Several emitters of ONE task (its stdout pump, its stderr pump and its main loop share the
+/// task's counter) beside a thread append on the shared log: all interleavings at the task's
+/// publish / buffer / counter hooks and the log writer's, up to the preemption bound. The task
+/// stream must read 0..n-1 in the log's file order and validated replay must pass.
+const TASK_FILTER: [&str; 9] = ["start", "task.publish", "task.buffer", "task.seq", "log.writer", "log.write_body", "log.flush", "log.appended", "cont.next_seq"];
+
+fn task_emitters_world(rt: &Arc<tokio::runtime::Runtime>, emitters: usize) -> (World, Vec<ActorBody>) {
+    use rip_kernel::EventKind;
+    let fx = Fx::new(rt.clone());
+    let app = {
+        let _g = rt.enter();
+        ripd::verif_export::VerifApp::new(fx.engine.clone(), false)
+    };
+    let thread = fx.store().ensure_default().expect("thread");
+    let mk = |who: usize| {
+        vec![
+            EventKind::ToolTaskCancelRequested { task_id: "t".into(), reason: format!("e{who}.1") },
+            EventKind::ToolTaskCancelRequested { task_id: "t".into(), reason: format!("e{who}.2") },
+        ]
+    };
+    let (_tid, futs) = rt
+        .block_on(app.create_task_emit_futures(json!({"tool": "bash", "args": {"command": "true"}}), (0..emitters).map(mk).collect()))
+        .expect("task");
+    let mut actors: Vec<ActorBody> = Vec::new();
+    for fut in futs {
+        let rt2 = rt.clone();
+        actors.push(Box::new(move |ctx: &ActorCtx| {
+            let _g = rt2.enter();
+            ctx.block_on(fut);
+        }));
+    }
+    let store = fx.store();
+    let th = thread.clone();
+    actors.push(Box::new(move |_ctx: &ActorCtx| {
+        let _ = store.append_message(&th, "u".into(), "o".into(), "beside the task".into());
+    }));
+    (World { fx, thread, acks: Arc::new(Mutex::new(Vec::new())) }, actors)
+}
+
+fn task_emitters_check(report: &Report, emitters: usize, world: &World, exec: &Exec) {
+    let case = json!({
+        "engine": "S",
+        "harness": "c01.task_emitters",
+        "emitters": emitters,
+        "choice_points_only": exec.decisions.iter().filter(|d| d.enabled.len() > 1).map(|d| d.chosen).collect::<Vec<_>>(),
+        "schedule": exec.schedule_string(),
+        "preemptions": exec.preemptions,
+    });
+    if exec.deadlock || !exec.panicked.is_empty() {
+        report.violation("C01:deadlock_or_panic:task_emitters", case, &format!("deadlock={} panicked={:?}", exec.deadlock, exec.panicked));
+        return;
+    }
+    if let Err((sig, msg)) = check_log(&world.fx, &[], "quiescence") {
+        report.violation(&format!("C01:{sig}:TaskEmitters"), case, &msg);
+    }
+}
+
+fn task_emitters(report: &Report, emitters: usize, bound: usize) {
+    let rt = Arc::new(tokio::runtime::Builder::new_multi_thread().worker_threads(1).enable_all().build().expect("rt"));
+    let mut outcomes: std::collections::HashSet<Vec<u64>> = std::collections::HashSet::new();
+    let stats = {
+        let outcomes_ref = &mut outcomes;
+        explore(
+            bound,
+            u64::MAX,
+            false,
+            Some(TASK_FILTER.to_vec()),
+            &|| report.over_cap(),
+            &|| task_emitters_world(&rt, emitters),
+            &mut |world: &World, exec: &Exec| {
+                report.eval(Some(&("task_emitters", emitters, exec.trace_hash())));
+                // outcome = which emitter's frames come in which order in the log (by timestamp-free identity: seq)
+                let order: Vec<u64> = world.fx.truth_all().unwrap_or_default().iter().filter(|e| e.stream_kind() == StreamKind::Task).map(|e| match &e.kind { rip_kernel::EventKind::ToolTaskCancelRequested { reason, .. } => reason.bytes().fold(0u64, |a, b| a * 31 + b as u64), _ => 0 }).collect();
+                outcomes_ref.insert(order);
+                task_emitters_check(report, emitters, world, exec);
+            },
+        )
+    };
+    report.add_states(stats.distinct_traces.len() as u64, stats.steps);
+    report.add_traces_validated(stats.executions);
+    report.count("executions", stats.executions);
+    report.count(&format!("task_emitter_executions[{emitters}]"), stats.executions);
+    report.count(&format!("task_emitter_distinct_log_orders[{emitters}]"), outcomes.len() as u64);
+    if outcomes.len() < 2 {
+        crate::common::machinery_failure("c01.task_emitters: fewer than two distinct log orders were explored (vacuous)");
+    }
+    if stats.capped {
+        report.not_exhaustive(&format!("task emitters x{emitters}: wall cap hit after {} executions at bound {bound}", stats.executions));
+    }
+}
+
 /// Runs started through `POST /sessions/{id}/input`: whatever the server answers, the session
 /// stream in the log must read 0..n-1 and the store must replay.
 fn session_inputs(report: &Report) {
@@ -666,6 +757,26 @@ pub fn run(opts: Opts) -> i32 {
                 report.replay_by_re_enumeration(path);
                 session_inputs(&report);
             }
+            "c01.task_emitters" => {
+                let emitters = case["emitters"].as_u64().unwrap_or(2) as usize;
+                let prefix: Vec<usize> = case["choice_points_only"].as_array().map(|a| a.iter().filter_map(|v| v.as_u64().map(|x| x as usize)).collect()).unwrap_or_default();
+                let rt = Arc::new(tokio::runtime::Builder::new_multi_thread().worker_threads(1).enable_all().build().expect("rt"));
+                let mut first: Option<Vec<String>> = None;
+                for round in 0..2 {
+                    let (world, actors) = task_emitters_world(&rt, emitters);
+                    let exec = crate::sched::run_once(actors, &prefix, false, Some(TASK_FILTER.to_vec()));
+                    println!("replay round {round}: {:?}", exec.schedule_string());
+                    match &first {
+                        None => first = Some(exec.schedule_string()),
+                        Some(f) if *f != exec.schedule_string() => crate::common::machinery_failure("replay not deterministic"),
+                        _ => {}
+                    }
+                    if round == 1 {
+                        report.eval(Some(&"replay"));
+                        task_emitters_check(&report, emitters, &world, &exec);
+                    }
+                }
+            }
             "c01.failed_appends" => {
                 report.replay_by_re_enumeration(path);
                 failed_appends(&report);
@@ -737,6 +848,13 @@ pub fn run(opts: Opts) -> i32 {
             cross_kind_ids(report);
             // the k-th log append inside one op fails; the numbering must survive it
             failed_appends(report);
+        });
+        // several emitters of one task beside a thread append
+        scope.spawn(move || {
+            task_emitters(report, 2, tier.pick(2, 3));
+            if tier == Tier::Thorough {
+                task_emitters(report, 3, 2);
+            }
         });
         configs.par_iter().for_each(|(pre, ops, b, extra)| {
             if report.over_cap() {
